@@ -76,3 +76,47 @@ def shard(iterable, k, n):
     for i, x in enumerate(iterable):
         if i % n == k:
             yield x
+
+
+# derived objects ------------------------------------------------------------
+DERIVE_HOWS = ["copy", "extract", "slice", "mod1", "concat", "gt0", "lt0", "reverse_twice"]
+
+
+def derive(track, key, allow=None):
+    """An equal-valued track obtained from `track` through another public operation of the library (a copy, a full
+    extract or slice, a decimation by 1, a concatenation of two parts, a trimming by 0, two reversals).  The result
+    holds the same observations (values, order) and the same feature table; it may share the observation objects
+    with `track`, which the caller then drops.  `key` (any hashable / repr-able) picks the operation
+    deterministically.  Returns (derived, how); (track, "none") for tracks of fewer than 2 observations."""
+    import hashlib
+    n = track.size()
+    hows = list(allow or DERIVE_HOWS)
+    if n < 2:
+        return track, "none"
+    h = int.from_bytes(hashlib.blake2b(repr(key).encode(), digest_size=4).digest(), "little")
+    how = hows[h % len(hows)]
+    if how == "copy":
+        d = track.copy()
+    elif how == "extract":
+        d = track.extract(0, n - 1)
+    elif how == "slice":
+        d = track[0:n]
+    elif how == "mod1":
+        d = track % 1
+    elif how == "concat":
+        k = 1 + (h // 7) % (n - 1)
+        d = track.extract(0, k - 1) + track.extract(k, n - 1)
+    elif how == "gt0":
+        d = track > 0
+    elif how == "lt0":
+        d = track < 0
+    else:
+        d = track.reverse().reverse()
+    if d is None or d.size() != n:
+        raise RuntimeError("derive(%s) did not give back the %d observations" % (how, n))
+    try:
+        from vt import monitor as _M
+        _M.CTX.count("input_is_a_derived_object:" + how)
+    except Exception:
+        pass
+    return d, how
